@@ -328,7 +328,46 @@ def forge_dist(c):
     return lzma_script(c["f1"]), [{"kind": "lzma_raw", "props": 0x5D, "dict": 4096}, {"kind": "lzma_raw", "props": 0x5D, "dict": 4096, "usize": 100}]
 
 
-FORGE = {"xz_index": forge_xz_index, "xz_bh": forge_xz_bh, "lzma2": forge_lzma2, "lzma": forge_lzma, "lzip": forge_lzip, "many": forge_many,
+def forge_lzma2_seq(c):
+    base = F.lzma2_raw(CONTENT, 4096)
+    (a, b, ctrl) = F.lzma2_chunks(base)[0]
+    chunk = base[a:b]
+    props, payload = chunk[5], chunk[6:]
+    usz, csz = chunk[1:3], chunk[3:5]
+    first = chunk if c["f1"] == "e0" else bytes([1]) + struct.pack(">H", 599) + CONTENT[:600]
+    if c["f3"] == "zeros":
+        payload = b"\0" * len(payload)
+    elif c["f3"] == "ff":
+        payload = b"\0" + b"\xff" * (len(payload) - 1)
+    f2 = c["f2"]
+    if f2 == "none":
+        second = b""
+    elif f2 == "00":
+        second = b"\0"
+    elif f2 in ("01", "02"):
+        second = bytes([int(f2)]) + struct.pack(">H", 99) + CONTENT[600:700] + b"\0"
+    elif f2 == "03":
+        second = b"\x03" + payload
+    else:
+        k = int(f2, 16)
+        second = bytes([k]) + usz + csz + (bytes([props]) if k >= 0xC0 else b"") + payload + b"\0"
+    d = {"4096": 4096, "64k": 65536}[c["f5"]]
+    return first + second, [{"kind": "lzma2", "dict": d}, {"kind": "lzma2_mt", "dict": d, "workers": 2}]
+
+
+def forge_lzip_multi(c):
+    n = int(c["f3"])
+    members = [F.lz_member(F.gen_data("text", 400 + 37 * i, i), 4096, mno=i) for i in range(n)]
+    k = 0 if c["f1"] == "first" else n - 1
+    total = sum(len(r.raw) for m in members for r in m)
+    mlen = sum(len(r.raw) for r in members[k])
+    ms = {"zero": 0, "one": 1, "plus1": mlen + 1, "minus1": mlen - 1, "2p63": 1 << 63, "file_plus": total + 100}[c["f2"]]
+    t = members[k][2]
+    members[k][2] = F.Rec("LTRL", t.raw[:12] + struct.pack("<Q", ms))
+    return b"".join(F.assemble(m) for m in members), [{"kind": "lzip"} if c["f5"] == "st" else {"kind": "lzip_mt", "workers": 2}]
+
+
+FORGE = {"lzma2_seq": forge_lzma2_seq, "lzip_multi": forge_lzip_multi, "xz_index": forge_xz_index, "xz_bh": forge_xz_bh, "lzma2": forge_lzma2, "lzma": forge_lzma, "lzip": forge_lzip, "many": forge_many,
          "filter": forge_filter, "dist": forge_dist}
 
 
@@ -358,13 +397,13 @@ def run(tier, replay=None):
     rnd = random.Random(ctx.seed)
 
     # ---------------- stage 1: TLC enumerates the adversarial field classes
-    consts = {"Families": '{"xz_index","xz_bh","lzma2","lzma","lzip","many","filter","dist"}', "MaxDeviations": "2" if quick else "3"}
+    consts = {"Families": '{"xz_index","xz_bh","lzma2","lzma","lzip","many","filter","dist","lzma2_seq","lzip_multi"}', "MaxDeviations": "2" if quick else "3"}
     r, cases = B.tlc_export(ctx, "HostileFields", consts, "HostileFields", invariants=("NeverPanic", "BoundFinite", "Export"), timeout=1800)
     if not r.ok:
         raise ToolError(f"HostileFields: {r.violated}")
     ctx.require_coverage(r, ["Classify"], "HostileFields")
     fams = collections.Counter(c["fam"] for c in cases)
-    if len(fams) < 8 or len(cases) < 1000:
+    if len(fams) < 10 or len(cases) < 1000:
         raise ToolError(f"HostileFields export incomplete: {dict(fams)}")
     ctx.cov["abstract_cases"] = dict(fams)
 
